@@ -85,7 +85,9 @@ func listDir(dir string) []any {
 		}
 		out = append(out, map[string]any{"name": hx(e.Name()), "content": hx(string(b))})
 	}
-	sort.Slice(out, func(i, j int) bool { return out[i].(map[string]any)["name"].(string) < out[j].(map[string]any)["name"].(string) })
+	sort.Slice(out, func(i, j int) bool {
+		return out[i].(map[string]any)["name"].(string) < out[j].(map[string]any)["name"].(string)
+	})
 	return out
 }
 
